@@ -180,6 +180,11 @@ def resplit(toks):
 def same_expr(model, a, b, what):
     if a == b:
         return None
+    nd, b = X.numeric_diff(a, b)        # numeric literals by VALUE (kind kept, <= 1 unit of the 15th digit, zero only for zero)
+    if nd:
+        return f"{what}: {nd}"
+    if a == b:
+        return None
     ra, rb = model.ast(a), model.ast(b)
     if not ra.startswith("A "):
         return None if ra == rb else f"{what}: source expression is outside the modelled expression grammar ({ra}) and the output differs"
@@ -267,7 +272,7 @@ def oracle_ext(tools, model, src, w, t, c):
     return probs, out
 
 
-def evaluate_ext(ctx, tools, model, src, settings, label=""):
+def evaluate_ext(ctx, tools, model, src, settings, label="", key=None):
     ok, msg = tools.accepts(src)
     if not ok:
         ctx.hist("inputs", "extended: rejected-by-check-express (not in the property's domain)")
@@ -280,7 +285,7 @@ def evaluate_ext(ctx, tools, model, src, settings, label=""):
         probs, out = oracle_ext(tools, model, src, w, t, c)
         for kind, detail in probs:
             n += 1
-            ctx.violation(canon_key(kind + "-ext", src), detail,
+            ctx.violation(key or canon_key(kind + "-ext", src), detail,
                           {"schema": src, "exppp_args": ["-l", str(w)] + (["-t"] if t else []) + (["-c"] if c else []),
                            "kind": kind, "extended": True, "output": out})
         if probs:
@@ -564,6 +569,23 @@ def run(ctx):
                          label=f"extended#{i}")
             if i == 0:
                 ctx.sample({"extended_schema": src[:1500]})
+        # 2c. numeric literals on a grid (mantissa digits x decimal exponents x notations; integers up to 25 digits), compared by VALUE.
+        # Literals the tools cannot represent are classified from the INPUT and reported under one key per class.
+        reals = X.real_grid(not quick, ctx.rng)
+        ints = X.int_grid(ctx.rng)
+        groups = {}
+        for kind, lits in (("REAL", reals), ("INTEGER", ints)):
+            for l in lits:
+                tok = X.lex(l)[0]
+                groups.setdefault((kind, X.literal_class(tok)), []).append(l)
+        gi = 0
+        for (kind, cls), lits in sorted(groups.items(), key=lambda kv: (kv[0][0], str(kv[0][1]))):
+            for c0 in range(0, len(lits), 120):
+                gi += 1
+                src = X.literal_schema(f"lit{gi}", kind, lits[c0:c0 + 120])
+                ctx.hist("inputs", f"numeric literal grid: {kind} {cls or 'representable'}", len(lits[c0:c0 + 120]))
+                evaluate_ext(ctx, tools, model, src, [(80, False, False)] + ([] if quick else [(10, False, False), (99999, True, True)]),
+                             label=f"literals#{gi}", key=("class:" + cls) if cls else None)
         # grammar coverage: every non-terminal of expparse.y is mapped to a generator feature (or excluded with a reason);
         # every mapped feature must have been generated in this run
         ytext = open(os.path.join(B.REPO, "src/express/expparse.y")).read()
